@@ -333,6 +333,8 @@ func ManifestReferrerDescriptor(raw []byte, d Descriptor) (Descriptor, Descripto
 		rd.Digest = digest.Canonical.FromBytes(raw)
 	}
 	rd.Size = int64(len(raw))
+	// the artifact type is only taken from the manifest, never from the provided descriptor
+	rd.ArtifactType = ""
 	if referrer.ArtifactType != "" {
 		rd.ArtifactType = referrer.ArtifactType
 	} else if referrer.Config != nil {
